@@ -156,6 +156,10 @@ def run():
     work = tlc.subdir("c01")
     isolate_config(work)
     corp = Corpus(chk)
+    # design level: the multilevel cell alignment (CellAlign.tla), checked on every pair of abstract cell lists and
+    # compared with nbdime's algorithm and its real cell predicates
+    from . import align
+    align.cell_align(chk, 2, 1 if chk.quick else 2, False)
     if chk.quick:
         pairs = corp.pairs(n_enum=1500, n_random=400, n_unrelated=80) + pair_sweep(chk, 150)
         file_every = 8
